@@ -2,7 +2,7 @@
 """Sensitivity protocol (DESIGN.md section 6): apply a patch to a scratch copy of /repo/d42 and run checks on it.
 
   tools_mutants.py run <patch.diff> <ID>[,<ID>...] [--tests] [--tier quick] [--seed N]
-  tools_mutants.py matrix [--tests]            all of mutants/*.diff and seeded/*/patch.diff (ids from meta)
+  tools_mutants.py matrix [--tests] [--jobs N] all of mutants/*.diff and seeded/*/patch.diff (ids from meta)
 
 Patch header line '# property: C01,C12' (mutants/) or seeded/<id>/meta.json names the target checks.
 Nothing is written into /repo or /verif/evidence; the scratch copy is removed afterwards.
@@ -74,9 +74,9 @@ def main():
         patches = sorted(glob.glob(os.path.join(HERE, "mutants", "*.diff"))) + \
             sorted(glob.glob(os.path.join(HERE, "seeded", "*", "patch.diff")))
         rows = []
-        for p in patches:
-            ids = targets_of(p)
-            r = run_one(p, ids, tests, tier, seed)
+        from multiprocessing.pool import ThreadPool
+        jobs = int(a[a.index("--jobs") + 1]) if "--jobs" in a else 5
+        for r in ThreadPool(jobs).imap(lambda p: run_one(p, targets_of(p), tests, tier, seed), patches):
             rows.append(r)
             det = {k: ("KILLED" if v["detected"] else f"missed(exit {v['exit']})") for k, v in r["checks"].items()}
             print(f"{r['patch']:60s} tests_pass={r.get('tests_pass')} {det}" + ("" if r["applied"] else "  PATCH FAILED " + r.get("error", "")), flush=True)
